@@ -331,6 +331,53 @@ func H_C05_seq_wrong_alphabet() {
 	verifAssert(err != nil, "a protein-only sequence is rejected")
 }
 
+// H_C05_seq_symbolic: Sequence.Translate in frame 1 of a 4-residue sequence whose residues are symbolic bytes (not class-enumerated).
+// bounds: L=4, frame 1, standard code; leading residue and codon position 3: any IUPAC code, U, - . * ? X (both cases); codon positions 1,2: A C G T U (both cases)
+// outside: longer sequences (class-enumerated in H_C05_seq_frames), ambiguity codes in codon positions 1,2 (H_C05_seq_symbolic_deep)
+func H_C05_seq_symbolic() { vfSeqSymbolic(true, GENETIC_CODE_STANDARD) }
+
+// H_C05_seq_symbolic_deep: as H_C05_seq_symbolic with all codon positions over the whole nucleotide alphabet.
+// bounds: L=4, frame 1, vertebrate mitochondrial code; every residue: any IUPAC code, U, - . * ? X in both cases
+// outside: longer sequences
+//verif: tier=thorough
+func H_C05_seq_symbolic_deep() { vfSeqSymbolic(false, GENETIC_CODE_VETEBRATE_MITO) }
+
+func vfIsBase(c uint8) bool {
+	switch c {
+	case 'A', 'C', 'G', 'T', 'U', 'a', 'c', 'g', 't', 'u':
+		return true
+	}
+	return false
+}
+
+func vfSeqSymbolic(quick bool, sel int) {
+	frame := 1
+	L := 3 + frame
+	nt := make([]uint8, L)
+	for j := range nt {
+		nt[j] = nondetByte()
+		assume(vfNtWide(nt[j]) || nt[j] == 'U' || nt[j] == 'u')
+		if quick && j >= frame && j < frame+2 {
+			assume(vfIsBase(nt[j]))
+		}
+	}
+	tr, err := NewSequence("s0", vfCopy(nt), "").Translate(frame, sel)
+	verifReach("translated")
+	verifAssert(err == nil, "a nucleotide sequence with one complete codon is translated")
+	vfCheckTranslation(tr.SequenceChar(), nt, frame, vfNCBITable(sel))
+}
+
+// H_C05_bag_wrong_alphabet: a sequence bag declared as amino acids is not translated.
+// bounds: one row ATGAAA, bag alphabet AMINOACIDS, phase -1..2, all 3 codes
+// outside: -
+func H_C05_bag_wrong_alphabet() {
+	sb := NewSeqBag(AMINOACIDS)
+	sb.AddSequenceChar("s0", []uint8("ATGAAA"), "")
+	err := sb.Translate(nondetRange(-1, 2), nondetRange(0, 2))
+	verifReach("protein bag")
+	verifAssert(err != nil, "a bag whose alphabet is not nucleotide is rejected")
+}
+
 // vfSymBagRows builds n rows of the given lengths of class bytes over alpha and adds them to sb.
 func vfSymBagRows(sb SeqBag, lens []int, alpha string) [][]uint8 {
 	orig := make([][]uint8, len(lens))
@@ -549,7 +596,10 @@ func vfCodonAlign(maxW1, maxK1, maxW2, maxK2 int, alpha string, sel int) {
 	if maxK > W {
 		maxK = W
 	}
-	r := nondetRange(0, 2)
+	r := 1
+	if n == 1 || maxK == 1 {
+		r = nondetRange(0, 2)
+	}
 	nts := NewSeqBag(NUCLEOTIDS)
 	prot := NewAlign(AMINOACIDS)
 	orig := make([][]uint8, n)
@@ -616,12 +666,12 @@ func vfCodonAlign(maxW1, maxK1, maxW2, maxK2 int, alpha string, sel int) {
 }
 
 // H_C05_codonalign: threading gap-free nucleotide rows onto a (declared amino-acid) alignment of their translations with arbitrary gap columns.
-// bounds: n=1: protein width W<=3, k<=2 codons; n=2: W<=2, k=1 codon per row; 0..2 trailing bases; every placement of the W-k gaps; standard code; codon nucleotides A/U in both cases, trailing bases any IUPAC code or . * ? X
+// bounds: n=1: protein width W<=3, k<=2 codons; n=2: W<=2, k=1 codon per row; r=0..2 trailing bases in row 0 and (r+1) mod 3 in row 1; every placement of the W-k gaps; standard code; codon nucleotides A/U in both cases, trailing bases any IUPAC code or . * ? X
 // outside: nucleotide rows that contain '-' (a full-gap codon translates to '-', which the protein alignment cannot distinguish from an alignment gap), wider alignments, n>2; protein alignments whose alphabet was auto-detected (H_C05_codonalign_roundtrip)
 func H_C05_codonalign() { vfCodonAlign(3, 2, 2, 1, "AU", GENETIC_CODE_STANDARD) }
 
 // H_C05_codonalign_deep: as H_C05_codonalign, wider.
-// bounds: n=1: W<=4, k<=3; n=2: W<=3, k<=2; invertebrate mitochondrial code; codon nucleotides A/U in both cases, trailing bases any IUPAC code
+// bounds: n=1: W<=4, k<=3, 0..2 trailing bases; n=2: W<=3, k<=2, 1 trailing base in row 0 and 2 in row 1 (W=1: r and (r+1) mod 3 for r=0..2); invertebrate mitochondrial code; codon nucleotides A/U in both cases, trailing bases any IUPAC code
 // outside: as H_C05_codonalign
 //verif: tier=thorough
 func H_C05_codonalign_deep() { vfCodonAlign(4, 3, 3, 2, "AU", GENETIC_CODE_INVETEBRATE_MITO) }
@@ -692,11 +742,14 @@ func H_C05_codonalign_errors() {
 // ---------------------------------------------------------------------------------------
 // TranslateByReference
 
-func vfByRefNoGap(minL, maxL int, alpha string, sel int) {
+func vfByRefNoGap(minL, maxL int, bothRefs bool, alpha string, sel int) {
 	n := 2
 	L := nondetRange(minL, maxL)
 	frame := nondetRange(0, 2)
-	ref := nondetRange(0, n-1)
+	ref := n - 1
+	if bothRefs {
+		ref = nondetRange(0, n-1)
+	}
 	al, orig := vfClsAlign(n, L, alpha)
 	plainA, cerr := al.Clone()
 	if cerr != nil {
@@ -736,13 +789,13 @@ func vfByRefNoGap(minL, maxL int, alpha string, sel int) {
 // H_C05_byref_nogap: on a gap-free alignment TranslateByReference equals Translate in frames 0,1,2, whichever row is the reference.
 // bounds: n=2, L in 2..5, frame 0..2, reference = row 0 or 1, standard code, residues A/U in both cases
 // outside: L>5 (H_C05_byref_nogap_deep), n>2
-func H_C05_byref_nogap() { vfByRefNoGap(2, 5, "AU", GENETIC_CODE_STANDARD) }
+func H_C05_byref_nogap() { vfByRefNoGap(2, 5, true, "AU", GENETIC_CODE_STANDARD) }
 
 // H_C05_byref_nogap_deep: as H_C05_byref_nogap with two codons per row.
-// bounds: n=2, L in 6..7, frame 0..2, reference = row 0 or 1, vertebrate mitochondrial code, residues A/U in both cases
+// bounds: n=2, L in 6..7, frame 0..2, reference = row 1, vertebrate mitochondrial code, residues A/U in both cases
 // outside: L>7
 //verif: tier=thorough
-func H_C05_byref_nogap_deep() { vfByRefNoGap(6, 7, "AU", GENETIC_CODE_VETEBRATE_MITO) }
+func H_C05_byref_nogap_deep() { vfByRefNoGap(6, 7, false, "AU", GENETIC_CODE_VETEBRATE_MITO) }
 
 // vfGapOrLetterRow: column j is either a gap (chosen as a concrete shape) or the letter letters[j mod len] in
 // symbolic case. With a single letter this is "every gap placement over one residue class"; with a
